@@ -43,7 +43,7 @@ A3 = docspace.A0 + [
 ]
 ALPHABETS = {"A3": A3}
 FE_EXTRA = ["Bar at ", "Foo at ", "In ", "and "]
-DEPTH = {"quick": {"AC": 3, "HS": 2, "REF": 2, "MERGE": 2}, "thorough": {"AC": 4, "HS": 3, "REF": 3, "MERGE": 3}}
+DEPTH = {"quick": {"AC": 3, "HS": 2, "REF": 2, "MERGE": 2}, "thorough": {"AC": 4, "HS": 3, "REF": 2, "MERGE": 3}}
 MERGE_TEMPLATES = [
     "See, e.g., State v. W1ngler, 135 A. 2d 468 (1957); [State v. Wingler at 175, citing, Minnesota ex rel.]",
     "Foo v. Bar, 1 U.S. 1 (1999). Roe v. Wade, 2 F.2d 2. In Bar at 9, and Wade at 3, Foo at 12; 1 U.S. at 5. Foo at 12",
